@@ -1567,6 +1567,8 @@ def eval_all(spec, hist_text, recs):
 
 def shrink(hist_text, still_fails, budget=60):
     """Delta debugging on the operation lines (the cfg line is kept)."""
+    if os.environ.get("VERIF_NO_SHRINK"):
+        return hist_text          # the seeded-change sweeps only need the verdict
     lines = [l for l in hist_text.strip().split("\n")]
     cfg, ops = lines[0], lines[1:]
     n = 2
